@@ -325,6 +325,15 @@ def delay_families(kind="discrete"):
     return out
 
 
+def parallel_delay_model(kind="discrete"):
+    """Two PARALLEL edges between one pair of variables with different delays (and spreads)."""
+    pop = op_li("op", x="r", ins=("r_in",), tau=2.0, x0=0.4, in_defaults={"r_in": 0.0})
+    two = {"p1": dict(ops=["op"]), "p2": dict(ops=["op"], over={"op/tau": 3.0})}
+    g = kind == "gamma"
+    return ("D10-parallel-edges-two-delays", dict(parallel_delays=True),
+            model([pop], two, [edge("p1/op/r", "p2/op/r_in", 1.5, 0.3, 0.1 if g else None), edge("p1/op/r", "p2/op/r_in", -0.5, 0.5, 0.2 if g else None)]))
+
+
 def c04_extra():
     """Vectorisation-specific families: tiny weights (SI units), per-node parameters, two node types with cross fan-in."""
     out = []
